@@ -38,7 +38,7 @@ def def_text(d):
     if k == "const":
         return "const %s = %s;\n" % (d["name"], d["expr"])
     if k == "enum":
-        body = ",\n".join("    %s = %s" % (n, v) for n, v in d["members"])
+        body = ",\n".join("    %s = %s" % (m[0], m[2] if len(m) > 2 else m[1]) for m in d["members"])
         return "enum %s\n{\n%s\n};\n" % (d["name"], body)
     if k == "typedef":
         return "typedef %s %s;\n" % (_tn(d["type"]), d["name"])
@@ -46,7 +46,7 @@ def def_text(d):
         body = "".join("    %s\n" % member_text(m) for m in d["members"])
         return "struct %s\n{\n%s};\n" % (d["name"], body)
     if k == "union":
-        body = "".join("    %s: %s %s;\n" % (a["disc"], _tn(a["type"]), a["name"]) for a in d["arms"])
+        body = "".join("    %s: %s %s;\n" % (a.get("dtext", a["disc"]), _tn(a["type"]), a["name"]) for a in d["arms"])
         return "union %s\n{\n%s};\n" % (d["name"], body)
     raise ValueError(k)
 
@@ -81,7 +81,7 @@ def isar_def(d):
     if k == "const":
         return '<constant name="%s" value="%s"/>' % (d["name"], _x(d["expr"]))
     if k == "enum":
-        body = "".join('<enum-member name="%s" value="%s"/>' % (n, v) for n, v in d["members"])
+        body = "".join('<enum-member name="%s" value="%s"/>' % (m[0], m[2] if len(m) > 2 else m[1]) for m in d["members"])
         return '<enum name="%s">%s</enum>' % (d["name"], body)
     if k == "typedef":
         t = d["type"]
@@ -89,7 +89,7 @@ def isar_def(d):
             return '<typedef name="%s" primitiveType="%s"/>' % (d["name"], ISAR_PRIMITIVE[t])
         return '<typedef name="%s" type="%s"/>' % (d["name"], t)
     if k == "union":
-        body = "".join('<member name="%s" type="%s" discriminatorValue="%s"/>' % (a["name"], a["type"], a["disc"])
+        body = "".join('<member name="%s" type="%s" discriminatorValue="%s"/>' % (a["name"], a["type"], a.get("dtext", a["disc"]))
                        for a in d["arms"])
         return '<union name="%s">%s</union>' % (d["name"], body)
     if k == "struct":
